@@ -75,5 +75,41 @@ def datavector [Scalar α] (D : Dataset α) : List α :=
   (cells D.dom.shape).map (fun c =>
     binned.foldl (fun acc (b, w) => if b = some c then Scalar.add acc w else acc) Scalar.zero)
 
+/-! ## numpy contract: `np.histogramdd(values, bins, weights)` with explicit bin edges
+
+Along one axis with increasing integer edges `e_0 < … < e_k` (`k ≥ 1`) a value `v` is dropped when
+`v < e_0` or `v > e_k`, falls in the last bin when `v = e_k` (numpy closes the last bin on the right)
+and in bin `#{i : e_i ≤ v} − 1` otherwise.  `dataset.py` passes `range(n+1)` per attribute; the
+translator (`tools/py2ds.py`) regenerates that expression and `Properties/C15D.lean` proves that it
+makes this contract the `bin1 / binOf / datavector` above. -/
+
+/-- bin of one coordinate under explicit edges -/
+def edgeBin (edges : List Nat) (v : Int) : Option Nat :=
+  match edges.getLast? with
+  | none => none
+  | some last =>
+    if edges.length < 2 then none
+    else if v < (edges.headD 0 : Nat) then none
+    else if v.toNat > last then none
+    else if v.toNat = last then some (edges.length - 2)
+    else some ((edges.filter (fun e => decide (e ≤ v.toNat))).length - 1)
+
+/-- bins of a record under one edge list per axis -/
+def edgeBins : List (List Nat) → List Int → Option (List Nat)
+  | [], [] => some []
+  | e :: es, v :: vs => do
+    let b ← edgeBin e v
+    let bs ← edgeBins es vs
+    pure (b :: bs)
+  | _, _ => none
+
+/-- `np.histogramdd(rows, bins, weights=weights)[0].flatten()` -/
+def histogramdd [Scalar α] (rows : List (List Int)) (bins : List (List Nat)) (weights : Option (List α)) : List α :=
+  let shape := bins.map (fun e => e.length - 1)
+  let binned := rows.zipIdx.map (fun (r, i) =>
+    (edgeBins bins r, match weights with | none => Scalar.one | some w => w.getD i Scalar.zero))
+  (cells shape).map (fun c =>
+    binned.foldl (fun acc (b, w) => if b = some c then Scalar.add acc w else acc) Scalar.zero)
+
 end Dataset
 end PGM
